@@ -802,9 +802,13 @@ class Summariser:
             p.value_obj = Seq(p.value_obj.kind, sub_parts(p.value_obj.parts))
             p.value = text(p.value_obj)
         elif p.value is not None:
+            before = p.value
             p.value = sub(p.value)
             if isinstance(p.value_obj, (Term, Poly)):
-                p.value_obj = Term(p.value)
+                kind = getattr(p.value_obj, "kind", None) if p.value == before else None
+                if p.value != before and p.kind == "return" and (p.value in self.atoms or neg_text(p.value) in self.atoms or (p.value.startswith("not ") and p.value[4:] in self.atoms)):
+                    kind = "bool"  # the arm that was chosen is itself a test: `return True if a else b` is `if a: return True` / `return b`
+                p.value_obj = Term(p.value, kind)
 
         def sub_eff(effects):
             res = []
@@ -1156,6 +1160,23 @@ class Summariser:
                 return (text_, other, special) if swapped else (text_, special, other)
         return None
 
+    _BIN_SYM = {ast.BitOr: "|", ast.BitAnd: "&", ast.BitXor: "^", ast.Add: "+", ast.Sub: "-", ast.Mult: "*", ast.LShift: "<<", ast.RShift: ">>"}
+
+    def _hoist_common_operand(self, ctext, ta, tb, kind):
+        """`(X op A) if c else (X op B)` with the same plain reference X on the left is `X op (A if c else B)`."""
+        if not (ta.startswith("(") and tb.startswith("(")):
+            return None
+        try:
+            pa, pb = ast.parse(ta, mode="eval").body, ast.parse(tb, mode="eval").body
+        except SyntaxError:
+            return None
+        if not (isinstance(pa, ast.BinOp) and isinstance(pb, ast.BinOp) and type(pa.op) is type(pb.op) and type(pa.op) in self._BIN_SYM and ast.dump(pa.left) == ast.dump(pb.left)):
+            return None
+        if any(isinstance(n, (ast.Call, ast.IfExp)) for n in ast.walk(pa.left)):
+            return None
+        inner = self.cond_term(ctext, Term(ast.unparse(pa.right)), Term(ast.unparse(pb.right)))
+        return Term(f"({ast.unparse(pa.left)} {self._BIN_SYM[type(pa.op)]} {atom_text(inner)})", kind)
+
     def cond_term(self, ctext, va, vb, kind=None):
         if text(va) == "True" and text(vb) == "False":
             return Term(ctext)
@@ -1165,6 +1186,9 @@ class Summariser:
         if flat is not None:
             c, x, y = flat
             return self.cond_term(c, Term(x, kind), Term(y, kind), kind)
+        hoisted = self._hoist_common_operand(ctext, atom_text(va), atom_text(vb), kind)
+        if hoisted is not None:
+            return hoisted
         t = f"({atom_text(va)} if {ctext} else {atom_text(vb)})"
         self.condterms[t] = (ctext, atom_text(va), atom_text(vb))
         return Term(t, kind)
